@@ -236,6 +236,9 @@ class Comms:
         comms_obj = self.getCom(name)
         if comms_obj is not None:
             rx_data = comms_obj.getData()
+            if rx_data is None:
+                # Nothing was received (time-out, closed port): nothing to pass on
+                return None
             if name in self.forwarding:
                 for destination in self.forwarding[name]:
                     destination.sendData(rx_data)
